@@ -383,6 +383,9 @@ example : compileSets exShape exRules = .ok [⟨false, 2, .inReg 0, 5⟩, ⟨tru
 /-- ... at tick 3 only the periodic one fires, at tick 2 only the absolute one ... -/
 example : firing [⟨false, 2, .inReg 0, 5⟩, ⟨true, 3, .inReg 1, 44⟩] 3 = [⟨true, 3, .inReg 1, 44⟩] := by decide
 example : firing [⟨false, 2, .inReg 0, 5⟩, ⟨true, 3, .inReg 1, 44⟩] 2 = [⟨false, 2, .inReg 0, 5⟩] := by decide
+/-- two periodic rules of the same period on one element keep their rule order (the later wins) -/
+example : firing [⟨true, 2, .outReg 1, 0⟩, ⟨true, 3, .inReg 0, 1⟩, ⟨true, 2, .outReg 1, 9⟩] 0
+    = [⟨true, 2, .outReg 1, 0⟩, ⟨true, 2, .outReg 1, 9⟩, ⟨true, 3, .inReg 0, 1⟩] := by decide
 /-- ... and the injected state at tick 2 has i0 = 5 with its valid flag raised, i1 untouched -/
 example :
     let vm := injected exShape [⟨false, 2, .inReg 0, 5⟩, ⟨true, 3, .inReg 1, 44⟩] 2 (initVm exShape exTopo)
